@@ -94,7 +94,7 @@ class Binding:
         return s
 
 
-def bind_args(c: Compiled, binding: Binding, y_sym: SArr, t_sym, hist=None, skip=()):
+def bind_args(c: Compiled, binding: Binding, y_sym: SArr, t_sym, hist=None, skip=(), overrides=None):
     """Symbolic argument tuple for the emitted function."""
     sargs = []
     for pos, (k, a) in enumerate(zip(c.keys, c.args)):
@@ -103,6 +103,9 @@ def bind_args(c: Compiled, binding: Binding, y_sym: SArr, t_sym, hist=None, skip
             continue
         if pos == 1:
             sargs.append(y_sym)
+            continue
+        if overrides and pos in overrides:
+            sargs.append(overrides[pos])
             continue
         if k == 'hist':
             sargs.append(hist)
@@ -175,14 +178,14 @@ def load_python(c: Compiled, binding: Optional[Binding] = None, extra_globals=No
     return f, ns
 
 
-def run_symbolic(c: Compiled, binding: Binding, y_sym=None, t_sym=None, hist=None, skip=()):
+def run_symbolic(c: Compiled, binding: Binding, y_sym=None, t_sym=None, hist=None, skip=(), overrides=None):
     """Execute the emitted Python text on symbols.  Returns (output array, sargs)."""
     ny = int(np.size(c.args[1]))
     if y_sym is None:
         y_sym = symx.symarray('y', ny)
     if t_sym is None:
         t_sym = symx.real('t')
-    sargs = bind_args(c, binding, y_sym, t_sym, hist=hist, skip=skip)
+    sargs = bind_args(c, binding, y_sym, t_sym, hist=hist, skip=skip, overrides=overrides)
     f, ns = load_python(c, binding)
     out = f(*sargs)
     return out, sargs
